@@ -475,6 +475,29 @@ func c05Set2(op c05Op) (string, [2]c05Op) {
 	return name, [2]c05Op{a, b}
 }
 
+// mkTxGroupScoped: like mkTx for one signer whose scope is CustomGroups{universe key k} instead of Global.
+func (c *c05Chain) mkTxGroupScoped(h util.Uint160, method string, args []any, sysFee int64, signerIdx, k int) (tx *transaction.Transaction, err error) {
+	err = c05Try(func() {
+		if signerIdx < 0 || signerIdx >= len(c.u.signers) || c.u.signers[signerIdx] == nil {
+			panic(c05Fatal{"no signer"})
+		}
+		w := io.NewBufBinWriter()
+		emit.AppCall(w.BinWriter, h, method, callflag.All, args...)
+		tx = transaction.New(w.Bytes(), 0)
+		c.nonce++
+		tx.Nonce = c.nonce
+		tx.ValidUntilBlock = c.bc.BlockHeight() + 1
+		sg := c.u.signers[signerIdx]
+		tx.Signers = []transaction.Signer{{Account: sg.ScriptHash(), Scopes: transaction.CustomGroups, AllowedGroups: []*keys.PublicKey{c.u.keys[k]}}}
+		neotest.AddNetworkFee(c.t, c.bc, tx, sg)
+		c.e.AddSystemFee(tx, sysFee)
+		if e := sg.SignTx(c.bc.GetConfig().Magic, tx); e != nil {
+			panic(c05Fatal{e.Error()})
+		}
+	})
+	return
+}
+
 // committeeSigner builds the majority multi-signature signer of the committee the chain has NOW (the universe
 // holds every private key): committee-only methods check the witness of the current committee address, which
 // changes when candidates are voted in.
